@@ -298,6 +298,7 @@ func (u *upstream) createClient(addr string) (*client, error) {
 		return nil, errors.New(upstreamExited)
 	default:
 	}
+	verifPause("upstream.client.checked", u)
 	// another attempt for the address may have got there first.
 	if existing, ok := u.loadClients()[addr]; ok {
 		conn.Close()
